@@ -115,6 +115,10 @@ func (self ParsingError) Error() string {
 }
 
 func (self ParsingError) Message() string {
+    // NOTICE: a negated code may arrive here (ParsingError is unsigned, int(self) < 0)
+    if int(self) < 0 {
+        return fmt.Sprintf("unknown error %d", int(self))
+    }
     if int(self) < len(_ParsingErrors) {
         return _ParsingErrors[self]
     } else {
